@@ -124,6 +124,8 @@ func (t *sleepTransaction) stopTimer() {
 
 func (t *sleepTransaction) startSleep() {
 	t.log.Debug("Sleeping for %v...", t.sleepDuration)
+	// A repeated (duplicated) DISCONNECT must not restart the sleep.
+	t.state = sleeping
 	t.client.setState(util.StateAsleep)
 	t.timer = time.AfterFunc(t.sleepDuration, t.wakeup)
 }
